@@ -37,7 +37,18 @@ pub trait Extra {
     fn extra(&self) -> u64;
 }
 
-cglue_trait_group!(CGroup, Counter, { Extra, Clone });
+// two more mandatory traits: both sides expand the group separately and must agree on where each
+// mandatory vtable sits
+#[cglue_trait]
+pub trait TagA {
+    fn tag_a(&self) -> u64;
+}
+#[cglue_trait]
+pub trait TagB {
+    fn tag_b(&self, x: u32) -> u64;
+}
+
+cglue_trait_group!(CGroup, { Counter, TagB, TagA }, { Extra, Clone });
 
 #[cglue_trait]
 pub trait Maker {
@@ -156,6 +167,16 @@ impl Counter for CounterImp {
 impl Extra for CounterImp {
     fn extra(&self) -> u64 {
         self.v.load(SeqCst) ^ 0xE7
+    }
+}
+impl TagA for CounterImp {
+    fn tag_a(&self) -> u64 {
+        self.v.load(SeqCst) ^ 0xA11A
+    }
+}
+impl TagB for CounterImp {
+    fn tag_b(&self, x: u32) -> u64 {
+        mixv(self.v.load(SeqCst), x as u64 ^ 0xB22B)
     }
 }
 cglue_impl_group!(CounterImp, CGroup, { Extra, Clone });
